@@ -13,11 +13,11 @@ inductive Pc where
   deriving DecidableEq, Repr, Inhabited
 
 inductive Ev where
-  | wake                    -- the 100 ms sleep is over: call lock.Lock()
+  | wake                    -- the 100 ms sleep is over: note ZookeeperExpirations, call lock.Lock()
   | lockOk | lockFail       -- the environment's answer
   | setFlag                 -- doEvaluations = true; go sendEvaluatorRequests()
-  | enterWait               -- ZookeeperExpired.Wait() begins
-  | expire                  -- zookeeper coordinator: ZookeeperConnected = false; Broadcast()
+  | enterWait               -- holding the condition's lock: Wait() unless the expiration count has changed
+  | expire                  -- zookeeper coordinator: ZookeeperConnected = false; ZookeeperExpirations++; Broadcast()
   | clearFlag               -- doEvaluations = false
   | reconnect               -- zookeeper coordinator: ZookeeperConnected = true
   | otherSession            -- any other session event (Disconnected, Connecting, HasSession, …): ignored by mainLoop
@@ -31,27 +31,33 @@ structure St where
   pc        : Pc := .sleeping
   flag      : Bool := false
   connected : Bool := true
+  /-- `ZookeeperExpirations` differs from the value the manager noted before `Lock()` -/
+  pending   : Bool := false
   loops     : Nat := 0
   /-- ghost: this session owns the lock node (a session expiry removes the ephemeral node) -/
   owns      : Bool := false
   /-- ghost: how far the resume protocol has come since the flag was last cleared:
       1 connection seen back, 2 old lock released, 3 lock acquired again -/
   stage     : Nat := 3
-  /-- ghost: number of sweeps performed while the lock was not owned, not counting the instant
-      between an expiry waking the manager and the manager clearing the flag (`woken`) -/
+  /-- ghost: number of sweeps performed while the lock was not owned, not counting the instants in
+      which the manager is on its way to clearing the flag: between an expiry waking it and its
+      clearing the flag (`woken`), and between an expiry that struck after `Lock()` returned and the
+      manager's look at the expiration count (`flagSet` with `pending`) -/
   badSweeps : Nat := 0
   deriving DecidableEq, Repr, Inhabited
 
 /-- one event; `none` when the event is not enabled in the state -/
 def step (s : St) : Ev → Option St
-  | .wake => if s.pc = .sleeping then some { s with pc := .locking } else none
+  | .wake => if s.pc = .sleeping then some { s with pc := .locking, pending := false } else none
   | .lockOk => if s.pc = .locking then some { s with pc := .locked, owns := true, stage := if s.stage = 2 then 3 else s.stage } else none
   | .lockFail => if s.pc = .locking then some { s with pc := .sleeping } else none
   | .setFlag => if s.pc = .locked then some { s with pc := .flagSet, flag := true, loops := s.loops + 1 } else none
-  | .enterWait => if s.pc = .flagSet then some { s with pc := .waiting } else none
+  | .enterWait =>
+    -- the repaired protocol: an expiry counted since `wake` is not waited for again
+    if s.pc = .flagSet then some { s with pc := if s.pending then .woken else .waiting } else none
   | .expire =>
-    -- a broadcast wakes the manager only if it is waiting; otherwise it is lost
-    some { s with connected := false, owns := false, pc := if s.pc = .waiting then .woken else s.pc }
+    -- a broadcast wakes the manager only if it is waiting; otherwise only the count remembers it
+    some { s with connected := false, owns := false, pending := true, pc := if s.pc = .waiting then .woken else s.pc }
   | .clearFlag => if s.pc = .woken then some { s with pc := .waitConn, flag := false, stage := 0 } else none
   | .reconnect => some { s with connected := true }
   | .otherSession => some s
@@ -60,8 +66,22 @@ def step (s : St) : Ev → Option St
   | .unlockOk => if s.pc = .unlocking then some { s with pc := .sleeping, owns := false, stage := if s.stage = 1 then 2 else s.stage } else none
   | .unlockFail => if s.pc = .unlocking then some { s with pc := .crashed } else none
   | .sweep =>
-    if s.loops > 0 ∧ s.flag = true then some { s with badSweeps := if s.owns || s.pc == .woken then s.badSweeps else s.badSweeps + 1 } else none
+    if s.loops > 0 ∧ s.flag = true then
+      some { s with badSweeps := if s.owns || s.pc == .woken || (s.pending && s.pc == .flagSet) then s.badSweeps else s.badSweeps + 1 }
+    else none
   | .loopExit => if s.loops > 0 ∧ s.flag = false then some { s with loops := s.loops - 1 } else none
+
+/-- the protocol BEFORE the repair (D12): `Wait()` unconditionally — an expiry broadcast between `Lock()`
+    returning and `Wait()` beginning is lost -/
+def stepOld (s : St) : Ev → Option St
+  | .enterWait => if s.pc = .flagSet then some { s with pc := .waiting } else none
+  | e => step s e
+
+def runOld : St → List Ev → Option St
+  | s, [] => some s
+  | s, e :: es => match stepOld s e with
+    | some s' => runOld s' es
+    | none => none
 
 def run : St → List Ev → Option St
   | s, [] => some s
